@@ -1,6 +1,7 @@
 package main
 
 import (
+	"bytes"
 	"fmt"
 	"math"
 	"sort"
@@ -190,8 +191,8 @@ func c19Trial(id int, gens []int) experiment.Trial {
 		rec := c19GenMenu[m]
 		org, _, _ := c19Champion(rec.FitIdx)
 		g := experiment.Generation{Id: gi, TrialId: id, Solved: rec.Solved, Champion: org, Diversity: rec.Div,
-			WinnerNodes: 2 + m, WinnerGenes: 3 + 2*m, WinnerEvals: 10 * (gi + 1), Fitness: experiment.Floats{org.Fitness},
-			Age: experiment.Floats{float64(org.Species.Age)}, Complexity: experiment.Floats{1}}
+			WinnerNodes: 2 + m, WinnerGenes: 3 + 2*m, WinnerEvals: 10 * (gi + 1), Fitness: experiment.Floats{org.Fitness, 1, 0.5 * float64(m)},
+			Age: experiment.Floats{float64(org.Species.Age), float64(2 + gi)}, Complexity: experiment.Floats{1, 4, float64(m), 7}}
 		t.Generations = append(t.Generations, g)
 	}
 	return t
@@ -371,6 +372,118 @@ func c19EvalExperiment(trials [][]int) [][2]string {
 			fails = append(fails, [2]string{"trial/BestOrganism-solvers", fmt.Sprintf("trial %d: BestOrganism(true) found=%v fitness=%v, the best solver champion fitness is %g (solved=%v)", ti, okSolver, fitOf(bestSolver), maxSolver, anySolved)})
 		}
 	}
+	// per-epoch means (Trial.Average) and what a caller may do with the series it got back: the series are
+	// the caller's - appending to one or overwriting it must change neither the other series nor later answers
+	mean := func(x experiment.Floats) float64 {
+		s := 0.0
+		for _, v := range x {
+			s += v
+		}
+		return s / float64(len(x))
+	}
+	for ti, gens := range trials {
+		t := &e.Trials[ti]
+		var af, aa, ac experiment.Floats
+		func() {
+			defer func() {
+				if r := recover(); r != nil {
+					pan = r
+				}
+			}()
+			af, aa, ac = t.Average()
+		}()
+		if pan != nil {
+			return [][2]string{{"trial/panic", fmt.Sprintf("Trial.Average panicked: %v", pan)}}
+		}
+		check := func(stage string, af, aa, ac experiment.Floats) bool {
+			if len(af) != len(gens) || len(aa) != len(gens) || len(ac) != len(gens) {
+				fails = append(fails, [2]string{"trial/Average-length", fmt.Sprintf("trial %d%s: Average() series have lengths %d/%d/%d for %d generations", ti, stage, len(af), len(aa), len(ac), len(gens))})
+				return false
+			}
+			for gi := range gens {
+				g := t.Generations[gi]
+				if !relClose(af[gi], mean(g.Fitness), 1e-12) || !relClose(aa[gi], mean(g.Age), 1e-12) || !relClose(ac[gi], mean(g.Complexity), 1e-12) {
+					fails = append(fails, [2]string{"trial/Average", fmt.Sprintf("trial %d generation %d%s: Average() gives (fitness %g, age %g, complexity %g), the means of the recorded series are (%g, %g, %g)", ti, gi, stage, af[gi], aa[gi], ac[gi], mean(g.Fitness), mean(g.Age), mean(g.Complexity))})
+					return false
+				}
+			}
+			return true
+		}
+		if !check("", af, aa, ac) || len(gens) == 0 {
+			continue
+		}
+		// pool the fitness series with more values (append), overwrite the complexity series
+		af = append(af, 1e9, -1e9, 5)
+		for i := range ac {
+			ac[i] = -77
+		}
+		af2, aa2, ac2 := t.Average()
+		if !check(" (second query, after the caller appended to / overwrote the series of the first)", af2, aa2, ac2) {
+			continue
+		}
+		_ = append(aa, 123, 456)
+		check(" (series of the first query, after the caller appended to its fitness series)", af[:len(gens)], aa, ac2)
+	}
+	// experiment-level: Solved, BestOrganism, AvgGenerationsPerTrial
+	{
+		anySolved := false
+		best, bestSolver := math.Inf(-1), math.Inf(-1)
+		total := 0
+		for _, gens := range trials {
+			total += len(gens)
+			for _, m := range gens {
+				f := c19Fitness[c19GenMenu[m].FitIdx]
+				if f > best {
+					best = f
+				}
+				if c19GenMenu[m].Solved {
+					anySolved = true
+					if f > bestSolver {
+						bestSolver = f
+					}
+				}
+			}
+		}
+		var es bool
+		var bo, bs *genetics.Organism
+		var okO, okS bool
+		var agt float64
+		func() {
+			defer func() {
+				if r := recover(); r != nil {
+					pan = r
+				}
+			}()
+			es = e.Solved()
+			bo, _, okO = e.BestOrganism(false)
+			bs, _, okS = e.BestOrganism(true)
+			agt = e.AvgGenerationsPerTrial()
+		}()
+		if pan != nil {
+			return [][2]string{{"experiment/panic", fmt.Sprintf("experiment accessor panicked: %v", pan)}}
+		}
+		if es != anySolved {
+			fails = append(fails, [2]string{"Experiment.Solved", fmt.Sprintf("%v, the records say %v", es, anySolved)})
+		}
+		if okO != (total > 0) || (okO && bo.Fitness != best) {
+			fails = append(fails, [2]string{"Experiment.BestOrganism", fmt.Sprintf("found=%v fitness=%v, the best champion fitness is %g", okO, fitOf(bo), best)})
+		}
+		if okS != anySolved || (okS && bs.Fitness != bestSolver) {
+			fails = append(fails, [2]string{"Experiment.BestOrganism-solvers", fmt.Sprintf("found=%v fitness=%v, the best solver champion fitness is %g", okS, fitOf(bs), bestSolver)})
+		}
+		if nT > 0 && !relClose(agt, float64(total)/float64(nT), 1e-12) {
+			fails = append(fails, [2]string{"AvgGenerationsPerTrial", fmt.Sprintf("%g, want %g", agt, float64(total)/float64(nT))})
+		}
+	}
+	// the per-trial aggregates are the caller's too
+	if nT > 0 {
+		bf := e.BestFitness()
+		_ = append(bf, 5)
+		bf[0] = -12345
+		if again := e.BestFitness(); len(again) != nT || again[0] != bestFit[0] {
+			fails = append(fails, [2]string{"BestFitness-after-caller-wrote", "BestFitness() changed after the caller overwrote the series it got from an earlier call"})
+		}
+	}
 	if len(fails) > 0 {
 		return fails
 	}
@@ -414,6 +527,100 @@ func c19EvalExperiment(trials [][]int) [][2]string {
 			fails = append(fails, [2]string{"WinnerStatistics", fmt.Sprintf("trial %d: %v, the solved generation gives %v", ti, got1, want)})
 		} else if got2 != want {
 			fails = append(fails, [2]string{"WinnerStatistics-after-sort", fmt.Sprintf("trial %d: %v after its generations were sorted in place (before: %v), the solved generation gives %v", ti, got2, got1, want)})
+		}
+	}
+	if len(fails) > 0 || nT == 0 {
+		return fails
+	}
+	// a usage sequence: the experiment object has been queried (winner statistics through the slice
+	// elements, as PrintStatistics does); then ANOTHER experiment with the same number of trials is read
+	// into it; every aggregate must now describe the data just read
+	other := make([][]int, nT)
+	same := true
+	for i := range trials {
+		src := trials[(i+1)%nT]
+		for k := len(src) - 1; k >= 0; k-- {
+			other[i] = append(other[i], src[k])
+		}
+		if fmt.Sprint(other[i]) != fmt.Sprint(trials[i]) {
+			same = false
+		}
+	}
+	if same {
+		return fails
+	}
+	e2 := experiment.Experiment{Id: 2}
+	for i, g := range other {
+		e2.Trials = append(e2.Trials, c19Trial(i, g))
+	}
+	var buf bytes.Buffer
+	var werr, rerr error
+	var gotW [][4]int
+	var aw [4]float64
+	var solved2 int
+	var ep2 experiment.Floats
+	func() {
+		defer func() {
+			if r := recover(); r != nil {
+				pan = r
+			}
+		}()
+		for i := range e.Trials {
+			e.Trials[i].WinnerStatistics()
+		}
+		e.AvgWinnerStatistics()
+		if werr = e2.Write(&buf); werr != nil {
+			return
+		}
+		if rerr = e.Read(&buf); rerr != nil {
+			return
+		}
+		for i := range e.Trials {
+			var w [4]int
+			w[0], w[1], w[2], w[3] = e.Trials[i].WinnerStatistics()
+			gotW = append(gotW, w)
+		}
+		aw[0], aw[1], aw[2], aw[3] = e.AvgWinnerStatistics()
+		solved2, ep2 = e.TrialsSolved(), e.EpochsPerTrial()
+	}()
+	if pan != nil {
+		return [][2]string{{"experiment/panic", fmt.Sprintf("reading into a used experiment panicked: %v", pan)}}
+	}
+	if werr != nil || rerr != nil {
+		return fails // C15 judges the encoding
+	}
+	if len(gotW) != nT || len(ep2) != nT {
+		return [][2]string{{"read-into-used/length", fmt.Sprintf("after reading an experiment of %d trials into a used one it has %d trials", nT, len(gotW))}}
+	}
+	ref2 := 0
+	var s2 [4]float64
+	for ti, gens := range other {
+		if ep2[ti] != float64(len(gens)) {
+			fails = append(fails, [2]string{"read-into-used/EpochsPerTrial", fmt.Sprintf("trial %d: %g epochs after reading, the data read has %d", ti, ep2[ti], len(gens))})
+		}
+		for gi, m := range gens {
+			if c19GenMenu[m].Solved {
+				want := [4]int{2 + m, 3 + 2*m, 10 * (gi + 1), c19GenMenu[m].Div}
+				if gotW[ti] != want {
+					fails = append(fails, [2]string{"read-into-used/WinnerStatistics", fmt.Sprintf("trial %d: WinnerStatistics() = %v after another experiment was read into the (already queried) object; the generations just read give %v", ti, gotW[ti], want)})
+				}
+				ref2++
+				for k := 0; k < 4; k++ {
+					s2[k] += float64(want[k])
+				}
+				break
+			}
+		}
+	}
+	if solved2 != ref2 {
+		fails = append(fails, [2]string{"read-into-used/TrialsSolved", fmt.Sprintf("%d after reading, the data read has %d solved trials", solved2, ref2)})
+	}
+	if ref2 > 0 {
+		for k := 0; k < 4; k++ {
+			if !relClose(aw[k], s2[k]/float64(ref2), 1e-12) {
+				fails = append(fails, [2]string{"read-into-used/AvgWinnerStatistics", fmt.Sprintf("%v after reading, the data read gives %v / %d", aw, s2, ref2)})
+				break
+			}
 		}
 	}
 	return fails
